@@ -16,20 +16,153 @@ from vlib import c16lib
 APP_ERROR_MARK = 'c06-application-error'
 
 
-def op_failing(xs, value=-1):
+# -- the family of application errors -----------------------------------------------
+#
+# What an application raises is its own business: a plain ValueError, an exception of a
+# library that carries attributes (`code`, `errno`, ...), a parser error.  A spec is a
+# JSON-able dict; the exception object is built on the side that raises it.
+
+
+class CodedError(Exception):
+  """A user exception that carries an attribute `code` (HTTPError.code, SystemExit.code,
+  click / grpc / expat style error objects do the same)."""
+
+  def __init__(self, message, code=0):
+    super().__init__(message)
+    self.code = code
+
+  def __reduce__(self):
+    return (CodedError, (self.args[0], self.code))
+
+
+_MALFORMED = {
+    'invalid_token': '<a>\x01</a>',     # expat: not well-formed (invalid token), code 4
+    'mismatched_tag': '<a><b></a>',     # expat: mismatched tag, code 7
+    'no_element': '<a>',                # expat: no element found, code 3
+}
+_PARSE_TEXT = {'invalid_token': 'not well-formed (invalid token)',
+               'mismatched_tag': 'mismatched tag', 'no_element': 'no element found'}
+
+# (errno 110 is left out: OSError(ETIMEDOUT) IS a TimeoutError, which the workers' own
+#  protocol uses for "retry this shard")
+EXC_FAMILY = [
+    {'type': 'value'},
+    {'type': 'coded', 'code': 4},
+    {'type': 'coded', 'code': 0},
+    {'type': 'parse', 'doc': 'invalid_token'},
+    {'type': 'coded', 'code': 3},
+    {'type': 'oserror', 'errno': 4},
+    {'type': 'parse', 'doc': 'mismatched_tag'},
+    {'type': 'coded', 'code': 'x'},
+    {'type': 'oserror', 'errno': 2},
+    {'type': 'parse', 'doc': 'no_element'},
+    {'type': 'oserror', 'errno': 5},
+]
+
+
+def make_app_error(spec, what):
+  """The exception object of an application error described by `spec`."""
+  kind = (spec or {}).get('type', 'value')
+  text = f'{APP_ERROR_MARK}: {what}'
+  if kind == 'value':
+    return ValueError(text)
+  if kind == 'coded':
+    return CodedError(text, spec['code'])
+  if kind == 'oserror':
+    return OSError(spec['errno'], text)
+  if kind == 'parse':
+    from xml.etree import ElementTree
+    try:
+      ElementTree.fromstring(_MALFORMED[spec['doc']])
+    except ElementTree.ParseError as e:
+      return e
+    raise AssertionError('the malformed document was parsed')
+  raise ValueError(f'unknown application error spec {spec!r}')
+
+
+def app_error_marks(spec, what):
+  """Texts one of which an error that names / chains the original exception contains."""
+  if (spec or {}).get('type') == 'parse':
+    return [_PARSE_TEXT[spec['doc']]]
+  return [f'{APP_ERROR_MARK}: {what}']
+
+
+def app_error_key(spec):
+  """Stable name of the input class of an application error."""
+  kind = (spec or {}).get('type', 'value')
+  if kind == 'coded':
+    return f'user-exception-code-{spec["code"]}'
+  if kind == 'oserror':
+    return f'oserror-errno-{spec["errno"]}'
+  if kind == 'parse':
+    return f'parse-error-{spec["doc"]}'
+  return 'valueerror'
+
+
+def app_error_code_attr(spec):
+  """The attribute `code` of the exception object the generator put in (None: it has none)."""
+  return getattr(make_app_error(spec, ''), 'code', None)
+
+
+def op_failing(xs, value=-1, exc=None):
   """Application error on the record that contains `value`."""
   if value in xs:
+    if exc is not None:
+      raise make_app_error(exc, f'record with {value} failed')
     raise ValueError(f'{APP_ERROR_MARK}: record with {value} failed')
   return list(xs)
+
+
+def task_fn(task_id, exc=None):
+  """Uniquely numbered task for as_completed / WorkerPool.run; fails with `exc` if given."""
+  if exc is not None:
+    raise make_app_error(exc, f'task {task_id} failed')
+  return ('done', task_id)
+
+
+def transport_call_stats(addresses):
+  """(init_generator calls issued, data-plane calls that ended in a transport deadline)."""
+  n_init = n_deadline = 0
+  for a, m, f in list(TRACK['calls']):
+    if a not in addresses or m == 'heartbeat':
+      continue
+    if m == 'init_generator':
+      n_init += 1
+    if f.done() and not f.cancelled() and getattr(f.exception(), 'code', 0) == 4:
+      n_deadline += 1
+  return n_init, n_deadline
 
 
 # The pipeline builder of c16lib looks its ops up by name.
 c16lib._OPS.setdefault('failing', op_failing)  # pylint: disable=protected-access
 
 
+def read_records(spec, shard_index, num_shards):
+  """A data source that reads (parses) its records one by one; one record is unreadable.
+
+  Contiguous shards.  spec['fail_source'] = {'record': index, 'exc': exception spec}.
+  """
+  recs = c16lib.records(spec['n'], spec['rec'])
+  fs = spec['fail_source']
+  lo = shard_index * len(recs) // num_shards
+  hi = (shard_index + 1) * len(recs) // num_shards
+  for i in range(lo, hi):
+    if i == fs['record']:
+      raise make_app_error(fs.get('exc'), f'record {i} cannot be read')
+    yield recs[i]
+
+
 def define_pipeline(spec, shard_index=0, num_shards=1, with_source=True):
   """c16lib.define_pipeline plus the 'failing' op (resolved on the worker side)."""
   c16lib._OPS.setdefault('failing', op_failing)  # pylint: disable=protected-access
+  if with_source and spec.get('fail_source'):
+    # the error is raised by the data source itself (nothing of the library wraps it)
+    from ml_metrics._src.chainables import transform
+    stage = c16lib.define_pipeline(spec, shard_index=shard_index, num_shards=num_shards,
+                                   with_source=False)
+    source = transform.TreeTransform.new(name='datasource').data_source(
+        read_records(spec, shard_index, num_shards))
+    return source.chain(stage)
   return c16lib.define_pipeline(spec, shard_index=shard_index, num_shards=num_shards,
                                 with_source=with_source)
 
